@@ -22,12 +22,13 @@ type cgen struct {
 
 	refs, permRefs, fileRefs, dirRefs []string
 	sizes                             []int64
+	nestLeft                          int // how many more levels of nested sub-constraints may be opened
 	fileSizes                         []int64
 	mimes                             []string
 }
 
 func newCgen(t *rapid.T, w *vw.World) *cgen {
-	g := &cgen{t: t, w: w}
+	g := &cgen{t: t, w: w, nestLeft: 2}
 	g.refs = w.SortedRefs()
 	seenSize := map[int64]bool{}
 	for _, rs := range g.refs {
@@ -172,6 +173,11 @@ func (g *cgen) instant(label string) time.Time {
 	case 2:
 		d = d.Add(time.Second)
 	}
+	if d.Unix() == 0 {
+		// TimeConstraint bounds are types.Time3339; IsAnyZero ("Go zero or Unix zero")
+		// makes every instant of the first second of 1970 mean "not set".
+		d = d.Add(time.Second)
+	}
 	return d
 }
 
@@ -269,15 +275,15 @@ func (g *cgen) permC(budget int) *search.PermanodeConstraint {
 			pc.ValueMatches = g.strC(vals, "vm")
 		case k == 5:
 			pc.ValueMatchesInt = g.intC([]int64{-3, 0, 7, 42, 100}, "vmi")
-		case k == 6 && budget > 0:
+		case (k == 6 || k == 8) && g.nestLeft > 0:
+			if g.p(70, "visAttr") {
+				pc.Attr = pick(g, []string{"camliMember", "camliContent", "camliPath:x", "camliPath:y"}, "visAttrName")
+			}
 			fl := flPerm
-			if pc.Attr == "camliContent" {
+			if pc.Attr == "camliContent" || g.p(25, "visFileish") {
 				fl = flFile
 			}
-			pc.ValueInSet = g.tree(budget-1, fl)
-			if g.p(50, "visAttr") {
-				pc.Attr = pick(g, []string{"camliMember", "camliContent", "camliPath:x"}, "visAttrName")
-			}
+			pc.ValueInSet = g.sub(fl)
 		case k == 7:
 			pc.Value = pick(g, vals, "value")
 			pc.ValueMatches = g.strC(vals, "vm")
@@ -310,10 +316,10 @@ func (g *cgen) permC(budget int) *search.PermanodeConstraint {
 			pc.NumValue = nv
 		}
 	}
-	if budget > 0 && g.p(18, "pRelation") {
+	if g.nestLeft > 0 && g.p(22, "pRelation") {
 		rc := &search.RelationConstraint{Relation: pick(g, []string{"parent", "child"}, "relation")}
 		rc.EdgeType = pick(g, []string{"", "", "", "camliMember", "camliPath:x", "tag"}, "edgeType")
-		sub := g.tree(budget-1, pick(g, []int{flPerm, flPerm, flAny}, "relFlavor"))
+		sub := g.sub(pick(g, []int{flPerm, flPerm, flAny}, "relFlavor"))
 		if g.p(65, "relAny") {
 			rc.Any = sub
 		} else {
@@ -338,8 +344,10 @@ func (g *cgen) fileC(budget int) *search.FileConstraint {
 	if g.p(25, "fWhole") {
 		fc.WholeRef = g.wholeRef()
 	}
-	if budget > 0 && g.p(20, "fParent") {
-		fc.ParentDir = g.dirC(budget - 1)
+	if g.nestLeft > 0 && g.p(20, "fParent") {
+		g.nestLeft--
+		fc.ParentDir = g.dirC(budget)
+		g.nestLeft++
 	}
 	return fc
 }
@@ -362,11 +370,15 @@ func (g *cgen) dirC(budget int) *search.DirConstraint {
 	if g.p(25, "dCount") {
 		dc.TopFileCount = g.intC([]int64{0, 1, 2, 3, 4}, "dCountC")
 	}
-	if budget > 0 && g.p(15, "dParent") {
-		dc.ParentDir = g.dirC(budget - 1)
+	if g.nestLeft > 0 && g.p(15, "dParent") {
+		g.nestLeft--
+		dc.ParentDir = g.dirC(budget)
+		g.nestLeft++
 	}
-	if budget > 0 && g.p(45, "dContains") {
-		sub := g.containsTree(budget - 1)
+	if g.nestLeft > 0 && g.p(45, "dContains") {
+		g.nestLeft--
+		sub := g.containsTree(budget)
+		g.nestLeft++
 		if g.p(50, "dRecursive") {
 			dc.RecursiveContains = sub
 		} else {
@@ -374,6 +386,13 @@ func (g *cgen) dirC(budget int) *search.DirConstraint {
 		}
 	}
 	return dc
+}
+
+// sub draws a nested sub-query (valueInSet, relation any/all).
+func (g *cgen) sub(fl int) *search.Constraint {
+	g.nestLeft--
+	defer func() { g.nestLeft++ }()
+	return g.tree(g.n(0, 2, "subDepth"), fl)
 }
 
 // containsTree: a BlobRefPrefix, a File, a Dir, or a logical combination of File/Dir leaves.
@@ -521,6 +540,34 @@ func (g *cgen) top() (c *search.Constraint, shape string) {
 		}
 		return logical("and", body, &search.Constraint{Permanode: g.permC(0)}), "and(nodeTypes,permanode)"
 	case 6: // a bare permanode constraint
+		if edges := g.edgeClaims(); len(edges) > 0 && g.p(45, "relTargeted") {
+			// relation through an edge claim that exists in the world (current, replaced or removed)
+			cl := pick(g, edges, "edgeClaim")
+			rc := &search.RelationConstraint{}
+			var target string
+			if g.p(50, "relChild") {
+				rc.Relation, target = "child", cl.Value
+			} else {
+				rc.Relation, target = "parent", cl.Perm.RefS
+			}
+			if g.p(25, "relEdgeType") {
+				rc.EdgeType = cl.Attr
+			}
+			sub := &search.Constraint{BlobRefPrefix: target}
+			if g.p(30, "relSubMore") {
+				sub = logical("and", sub, g.sub(flAny))
+			}
+			if g.p(75, "relAnyT") {
+				rc.Any = sub
+			} else {
+				rc.All = sub
+			}
+			pc := &search.PermanodeConstraint{Relation: rc}
+			if g.p(25, "relAt") {
+				pc.At = g.instant("relAtT")
+			}
+			return &search.Constraint{Permanode: pc}, "permanode-relation"
+		}
 		return &search.Constraint{Permanode: g.permC(depth)}, "permanode"
 	case 7: // single-blob planner path
 		one := &search.Constraint{BlobRefPrefix: pick(g, g.refs, "oneRef")}
@@ -559,7 +606,40 @@ func (g *cgen) top() (c *search.Constraint, shape string) {
 				dc.BlobRefPrefix = g.refPrefix(g.dirRefs, "deepPrefix")
 			}
 			var sub *search.Constraint
-			if g.p(70, "deepFile") {
+			if chains := g.deepChains(); len(chains) > 0 && g.p(75, "deepFromWorld") {
+				// take the own-field from a real directory D and the sub-constraint from a real
+				// descendant X at depth >= 2 (D > E > X), so that the case is rarely vacuous
+				ch := pick(g, chains, "deepChain")
+				d, x := g.w.Blobs[ch[0]], g.w.Blobs[ch[1]]
+				dc = &search.DirConstraint{}
+				switch g.n(0, 2, "deepOwnW") {
+				case 0:
+					dc.FileName = &search.StringConstraint{Equals: d.Dir.Name}
+					if d.Dir.Name == "" {
+						dc.FileName = &search.StringConstraint{Empty: true}
+					}
+				case 1:
+					n := int64(len(d.Dir.Children))
+					dc.TopFileCount = &search.IntConstraint{Equals: &n}
+				default:
+					dc.BlobRefPrefix = d.RefS[:len("sha224-")+g.n(4, 10, "deepPfxLen")]
+				}
+				name := ""
+				if x.File != nil {
+					name = x.File.Name
+				} else {
+					name = x.Dir.Name
+				}
+				sc := &search.StringConstraint{Equals: name}
+				if name == "" {
+					sc = &search.StringConstraint{Empty: true}
+				}
+				if x.File != nil {
+					sub = &search.Constraint{File: &search.FileConstraint{FileName: sc}}
+				} else {
+					sub = &search.Constraint{Dir: &search.DirConstraint{FileName: sc}}
+				}
+			} else if g.p(70, "deepFile") {
 				sub = &search.Constraint{File: &search.FileConstraint{FileName: &search.StringConstraint{Equals: pick(g, vw.FileNames[:8], "deepFileName")}}}
 			} else {
 				sub = &search.Constraint{Dir: &search.DirConstraint{FileName: &search.StringConstraint{Equals: pick(g, vw.DirNames[:4], "deepSubDirName")}}}
@@ -571,6 +651,42 @@ func (g *cgen) top() (c *search.Constraint, shape string) {
 	default:
 		return &search.Constraint{Dir: g.dirC(depth)}, "dir"
 	}
+}
+
+// edgeClaims lists the claims of the world whose attribute is an edge and whose value is a ref.
+func (g *cgen) edgeClaims() []*vw.Claim {
+	var out []*vw.Claim
+	for _, p := range g.w.Perms {
+		for _, c := range p.Claims {
+			if c.Attr == "camliMember" || strings.HasPrefix(c.Attr, "camliPath:") {
+				if _, ok := blob.Parse(c.Value); ok {
+					out = append(out, c)
+				}
+			}
+		}
+	}
+	return out
+}
+
+// deepChains lists (directory, descendant at depth >= 2) pairs of the world.
+func (g *cgen) deepChains() [][2]string {
+	var out [][2]string
+	for _, d := range g.w.Dirs {
+		seen := map[string]bool{}
+		for _, c := range d.Children {
+			cb := g.w.Blobs[c.String()]
+			if cb.Dir == nil {
+				continue
+			}
+			for _, x := range cb.Dir.Children {
+				if !seen[x.String()] {
+					seen[x.String()] = true
+					out = append(out, [2]string{d.RefS, x.String()})
+				}
+			}
+		}
+	}
+	return out
 }
 
 // ---- syntactic helpers of the check ----
